@@ -120,6 +120,7 @@ type Enc struct {
 	declared   map[string]bool
 	tags       map[string]int
 	tagList    []string
+	tagTy      map[string]types.Type
 	strlits    map[string]string
 	strOrder   []string
 	structs    map[string]*structInfo
@@ -132,7 +133,7 @@ type Enc struct {
 }
 
 func newEnc() *Enc {
-	e := &Enc{declared: map[string]bool{}, tags: map[string]int{}, strlits: map[string]string{}, structs: map[string]*structInfo{},
+	e := &Enc{tagTy: map[string]types.Type{}, declared: map[string]bool{}, tags: map[string]int{}, strlits: map[string]string{}, structs: map[string]*structInfo{},
 		compSort: map[string]string{}, boxed: map[string]bool{}, implFacts: map[string]bool{}, assumption: map[string]bool{}}
 	e.qual = func(p *types.Package) string { return p.Name() }
 	return e
@@ -176,6 +177,7 @@ func (e *Enc) tag(t types.Type) string {
 	if _, ok := e.tags[k]; !ok {
 		e.tags[k] = len(e.tags) + 1
 		e.tagList = append(e.tagList, k)
+		e.tagTy[k] = t
 		e.decl("tag:"+k, fmt.Sprintf("(define-fun %s () Int %d)", sym("tag$"+k), e.tags[k]))
 	}
 	return sym("tag$" + k)
